@@ -18,10 +18,12 @@ CONSTANTS
   M_CapPerSource = TRUE
   M_InvertAfterShortcut = TRUE
   M_LowerCopies = TRUE
+  M_ErrClearedBeforeDecode = TRUE
+  M_SubjectPerException = TRUE
   MSyms = {1, 2}
   MDataMax = 3
   MValMax = 2
   MCi = {FALSE}
   MPairLens = {1, 2}
-INVARIANTS TypeOK RefusedOnlyIf CutIsPrefix WithinLimitUntouched MatchAgrees DataUnchanged DisabledNeverDrops ExceptionNeverDropsStrict SpamOnlyIfBanned BanOnlyAfterThresholdStrict UnbanWithin VerdictDeterminedStrict
+INVARIANTS TypeOK RefusedOnlyIf CutIsPrefix WithinLimitUntouched MatchAgrees DataUnchanged CriAdmitted CriVerdictIgnoresAntispam ExceptionListExempts DisabledNeverDrops ExceptionNeverDropsStrict SpamOnlyIfBanned BanOnlyAfterThresholdStrict UnbanWithin VerdictDeterminedStrict
 CHECK_DEADLOCK FALSE
